@@ -170,7 +170,7 @@ pub const TOTAL_SHREDS: usize = 64;
 
 pub open spec fn row_at(sh: Map<SliceIndex, [Option<ValidatedShred>; TOTAL_SHREDS]>, k: SliceIndex, i: int) -> Option<ValidatedShred> { sh[k]@[i] }
 pub open spec fn wf_parts(sl: Map<SliceIndex, ReconstructedSlice>, sh: Map<SliceIndex, [Option<ValidatedShred>; TOTAL_SHREDS]>,
-                          cc: Map<SliceIndex, (SliceCommitment, Signature)>, last: Option<SliceIndex>, leaves: Option<nat>) -> bool {
+                          cc: Map<SliceIndex, (SliceCommitment, Signature)>, last: Option<SliceIndex>, leaves: Option<nat>, done: bool) -> bool {
     &&& sl.dom().finite() && sh.dom().finite()
     // W6: the double-Merkle tree, once built, has one leaf per slice up to the last one
     &&& (leaves matches Some(n) ==> last is Some && n == (last->0).0 + 1)
@@ -192,8 +192,18 @@ pub open spec fn wf_parts(sl: Map<SliceIndex, ReconstructedSlice>, sh: Map<Slice
     &&& forall|k: SliceIndex| #[trigger] sh.contains_key(k) ==> cc.contains_key(k)
     // W10: a reconstructed slice was reconstructed from stored shreds (which are kept)
     &&& forall|k: SliceIndex| #[trigger] sl.contains_key(k) ==> sh.contains_key(k)
+    // W11: ... and has all 64 of them stored since (deshred regenerates the missing ones): each can be served
+    &&& forall|k: SliceIndex| #[trigger] sl.contains_key(k) ==> row_full_in(sh, k)
+    // W12: once the double-Merkle tree is built, every slice up to the last one has all 64 shreds stored
+    &&& (leaves is Some ==> last is Some && forall|k: SliceIndex| k.0 <= (last->0).0 ==> #[trigger] row_full_in(sh, k))
+    // W13: a completed block has its double-Merkle tree (so, with W6 and W12: its last slice is known, a proof can be made for every
+    //      slice and every shred of every slice is stored - whatever a repairing node asks for can be served)
+    &&& (done ==> leaves is Some)
 }
 
+pub open spec fn row_full_in(sh: Map<SliceIndex, [Option<ValidatedShred>; TOTAL_SHREDS]>, k: SliceIndex) -> bool {
+    sh.contains_key(k) && forall|i: int| 0 <= i < TOTAL_SHREDS ==> (#[trigger] row_at(sh, k, i)) is Some
+}
 impl BlockData {
     pub open spec fn slice(&self, i: int) -> ReconstructedSlice { self.slices@[SliceIndex(i as usize)] }
     pub open spec fn shred_at(&self, k: SliceIndex, i: int) -> Option<ValidatedShred> { row_at(self.shreds@, k, i) }
@@ -205,11 +215,12 @@ impl BlockData {
     pub open spec fn cc(&self) -> Map<SliceIndex, SliceCommitment> {
         self.commitment_cache@.map_values(|p: (SliceCommitment, Signature)| p.0)
     }
-    pub open spec fn wf(&self) -> bool { wf_parts(self.slices@, self.shreds@, self.commitment_cache@, self.last_slice, self.tree_leaves()) }
+    pub open spec fn wf(&self) -> bool { wf_parts(self.slices@, self.shreds@, self.commitment_cache@, self.last_slice, self.tree_leaves(), self.completed is Some) }
     // every slice up to the one marked last has been reconstructed
     pub open spec fn all_there(&self) -> bool {
         self.last_slice matches Some(l) && self.slices@.len() == l.0 + 1
     }
+    pub open spec fn row_full(&self, k: SliceIndex) -> bool { row_full_in(self.shreds@, k) }
     // completeness, as an invariant across calls ("in any order"): once every slice is there the block has been built
     pub open spec fn complete_inv(&self) -> bool { self.all_there() ==> self.completed is Some }
     pub open spec fn last_consistent(l: SliceIndex, si: SliceIndex, is_last: bool) -> bool {
@@ -237,7 +248,15 @@ pub proof fn lemma_rows_after_deshred(pre: BlockData, cur: BlockData, index: Sli
         forall|k: SliceIndex| #[trigger] cur.shreds@.contains_key(k) <==> pre.shreds@.contains_key(k),
         forall|k: SliceIndex, i: int| pre.shreds@.contains_key(k) && 0 <= i < TOTAL_SHREDS && (#[trigger] row_at(pre.shreds@, k, i)) is Some
             ==> row_at(cur.shreds@, k, i) == row_at(pre.shreds@, k, i),
+        // full rows stay full (W11 / W12 carry over)
+        forall|k: SliceIndex| #[trigger] row_full_in(pre.shreds@, k) ==> row_full_in(cur.shreds@, k),
 {
+    assert forall|k: SliceIndex| #[trigger] row_full_in(pre.shreds@, k) implies row_full_in(cur.shreds@, k) by {
+        assert forall|i: int| 0 <= i < TOTAL_SHREDS implies (#[trigger] row_at(cur.shreds@, k, i)) is Some by {
+            assert(row_at(pre.shreds@, k, i) is Some);
+            if k == index { assert(row0@[i] is Some); }
+        }
+    }
     assert forall|k: SliceIndex, i: int| cur.shreds@.contains_key(k) && 0 <= i < TOTAL_SHREDS && (#[trigger] row_at(cur.shreds@, k, i)) is Some implies
         (row_at(cur.shreds@, k, i)->0).spec_payload().header.slice_index == k
         && cur.commitment_cache@.contains_key(k) && cur.commitment_cache@[k] == ((row_at(cur.shreds@, k, i)->0).spec_commitment(), (row_at(cur.shreds@, k, i)->0).spec_sig()) by {
@@ -285,6 +304,15 @@ pub proof fn lemma_pigeon(dom: Set<SliceIndex>, l: int)
     }
 }
 
+// a full row stays full when the map keeps the key and every filled position stays filled
+pub proof fn lemma_row_stays_full(sh0: Map<SliceIndex, [Option<ValidatedShred>; TOTAL_SHREDS]>, sh1: Map<SliceIndex, [Option<ValidatedShred>; TOTAL_SHREDS]>, k: SliceIndex)
+    requires
+        row_full_in(sh0, k), sh1.contains_key(k),
+        forall|i: int| 0 <= i < TOTAL_SHREDS && (#[trigger] row_at(sh0, k, i)) is Some ==> row_at(sh1, k, i) is Some,
+    ensures row_full_in(sh1, k)
+{
+    assert forall|i: int| 0 <= i < TOTAL_SHREDS implies (#[trigger] row_at(sh1, k, i)) is Some by { assert(row_at(sh0, k, i) is Some); }
+}
 // ... in fact every index up to l
 pub proof fn lemma_pigeon_at(dom: Set<SliceIndex>, l: int, j: int)
     requires 0 <= j <= l < usize::MAX, dom.finite(), dom.len() == l + 1, forall|k: SliceIndex| #[trigger] dom.contains(k) ==> k.0 <= l,
@@ -356,6 +384,12 @@ impl BlockstoreImpl {
             else if sd.repaired@.contains_key(id.1) { Some(sd.repaired@[id.1]) } else { None }
         }
     }
+    // "a block it holds": the block `id` is complete here (by dissemination or by repair)
+    pub open spec fn holds(&self, id: BlockId) -> bool {
+        self.data_of(id) matches Some(bd) && bd.completed is Some
+    }
+    // its last slice (meaningful when holds(id))
+    pub open spec fn last_of(&self, id: BlockId) -> SliceIndex { (self.data_of(id)->0).last_slice->0 }
     // "the store holds a shred of slice s of block id"
     pub open spec fn has_slice(&self, id: BlockId, s: SliceIndex) -> bool {
         self.data_of(id) is Some && (self.data_of(id)->0).shreds@.contains_key(s)
@@ -466,6 +500,8 @@ impl RegularShredder {
                     && (final(shreds)@[i]->0).spec_sig() == (old(shreds)@[j]->0).spec_sig(),
             r matches Ok(sl) ==> exists|j: int| 0 <= j < TOTAL_SHREDS && old(shreds)@[j] is Some
                     && sl.slice_index == (#[trigger] old(shreds)@[j]->0).spec_payload().header.slice_index,
+            // (a successful reconstruction leaves every position filled: PROVED on the real Shredder::deshred in unit deshred)
+            r is Ok ==> forall|i: int| 0 <= i < TOTAL_SHREDS ==> (#[trigger] final(shreds)@[i]) is Some,
     { unimplemented!() }
 }
 // R5: `self.shreds.entry(k).or_insert([const { None }; TOTAL_SHREDS])`: the shred row of slice k, created empty on first use
@@ -528,7 +564,10 @@ pub fn verif_shreds_is_empty(m: &BTreeMap<SliceIndex, [Option<ValidatedShred>; T
 // R8: `row.iter().find_map(|s| s.as_ref()).map(|s| s.slice_root().clone())`: the slice root of the first stored shred of the row
 #[verifier::external_body]
 pub fn verif_first_slice_root(row: &[Option<ValidatedShred>; TOTAL_SHREDS]) -> (r: Option<SliceRoot>)
-    ensures r is Some ==> exists|i: int| 0 <= i < TOTAL_SHREDS && (#[trigger] row@[i]) is Some
+    ensures
+        r is Some ==> exists|i: int| 0 <= i < TOTAL_SHREDS && (#[trigger] row@[i]) is Some,
+        // (find_map returns the first hit: there is one as soon as some position is filled)
+        (exists|i: int| 0 <= i < TOTAL_SHREDS && (#[trigger] row@[i]) is Some) ==> r is Some,
 { unimplemented!() }
 
 impl BlockstoreImpl {
@@ -548,6 +587,8 @@ ensures
 props C14 C10
 ret r
 ensures
+        // [C14.a_held_block_is_answered_with_data] "a node answers every request about a block it holds with data"
+        (self.store_wf() && self.holds(*block_id)) ==> r == Some(self.last_of(*block_id)),
         r == (match self.data_of(*block_id) { Some(bd) => bd.last_slice, None => None }),
 @*/
 /*@ extract src/consensus/blockstore.rs :: impl Blockstore for BlockstoreImpl/fn get_slice_root
@@ -555,8 +596,21 @@ props C14 C10
 ret r
 rewrite[R8] `block_data .shreds .get(&slice_index)? .iter() .find_map(|s| s.as_ref()) .map(|s| s.slice_root().clone())` => `verif_first_slice_root(block_data.shreds.get(&slice_index)?)`
 ensures
+        // [C14.a_held_block_is_answered_with_data] "a node answers every request about a block it holds with data"
+        (self.store_wf() && self.holds(*block_id) && slice_index.0 <= self.last_of(*block_id).0) ==> r is Some,
         // [C14.slice_root_served_only_for_a_held_slice]
         r is Some ==> self.has_slice(*block_id, slice_index),
+after `let block_data = self.get_block_data(block_id)?;`
+        proof {
+            assert(self.data_of(*block_id) == Some(*block_data));
+            if self.store_wf() && self.holds(*block_id) && slice_index.0 <= self.last_of(*block_id).0 {
+                assert(self.block_data@[block_id.0].all_wf());
+                assert(block_data.wf());
+                assert(row_full_in(block_data.shreds@, slice_index));
+                assert(row_at(block_data.shreds@, slice_index, 0) is Some);
+                assert(block_data.shreds@[slice_index]@[0] is Some);
+            }
+        }
 @*/
 /*@ extract src/consensus/blockstore.rs :: impl Blockstore for BlockstoreImpl/fn get_shred
 props C14 C13
@@ -566,6 +620,8 @@ requires
         self.store_wf(),
         shred_index.0 < TOTAL_SHREDS,
 ensures
+        // [C14.a_held_block_is_answered_with_data] "a node answers every request about a block it holds with data"
+        (self.holds(*block_id) && slice_index.0 <= self.last_of(*block_id).0) ==> r is Some,
         // [C14.served_shred_is_the_stored_one_at_that_position] (slot / slice / position of what is served: W4)
         r matches Some(v) ==> v.spec_payload().header.slice_index == slice_index,
         // [C14.served_shred_carries_the_verified_signature_of_its_slice C13.served_shred_carries_the_verified_signature_of_its_slice]
@@ -578,6 +634,10 @@ before `let slice_shreds = block_data.shreds.get(&slice_index)?;`
             assert(self.data_of(*block_id) == Some(*block_data));
             assert(self.block_data@[block_id.0].all_wf());
             assert(block_data.wf());
+            if self.holds(*block_id) && slice_index.0 <= self.last_of(*block_id).0 {
+                assert(row_full_in(block_data.shreds@, slice_index));
+                assert(row_at(block_data.shreds@, slice_index, shred_index.0 as int) is Some);
+            }
         }
 after `let slice_shreds = block_data.shreds.get(&slice_index)?;`
         proof {
@@ -592,6 +652,9 @@ requires
         self.store_wf(),
         // caller obligation (repair.rs try_build_response looks the slice root up first): a shred of that slice is held
         self.has_slice(*block_id, slice_index),
+ensures
+        // [C14.a_held_block_is_answered_with_data] "a node answers every request about a block it holds with data"
+        self.holds(*block_id) ==> r is Some,
 @*/
 }
 
@@ -646,6 +709,8 @@ elide-async
 requires
         old(self).flags_ok(),
 ensures
+        // [C14.store_invariant_is_kept C13.store_invariant_is_kept] every block data in the store stays well formed (what the queries that serve repair rely on)
+        old(self).store_wf() ==> final(self).store_wf(),
         // [C13.invalid_block_announced_exactly_once]
         final(self).flags_ok(),
         final(self).flagged(slot),
@@ -664,15 +729,52 @@ blockend `if self.slot_data_mut(slot).mark_leader_misbehaved() {`
 @*/
 }
 
+// what BlockData::new returns (PROVED below on its real body): nothing stored, nothing known
+pub open spec fn fresh_block_data(b: BlockData, slot: Slot) -> bool {
+    b.slot == slot && b.completed is None && b.last_slice is None && b.double_merkle_tree is None
+        && b.shreds@ == Map::<SliceIndex, [Option<ValidatedShred>; TOTAL_SHREDS]>::empty()
+        && b.slices@ == Map::<SliceIndex, ReconstructedSlice>::empty()
+        && b.commitment_cache@ == Map::<SliceIndex, (SliceCommitment, Signature)>::empty()
+}
+// R5: `self.repaired.entry(k).or_insert_with(|| BlockData::new(self.slot))`: the entry for k, created by BlockData::new on first use.
+// TRUSTED documented behaviour of BTreeMap::entry / or_insert_with.
+#[verifier::external_body]
+pub fn verif_repaired_entry(m: &mut BTreeMap<BlockHash, BlockData>, slot: Slot, k: BlockHash) -> (r: &mut BlockData)
+    ensures
+        old(m)@.contains_key(k) ==> *r == old(m)@[k],
+        !old(m)@.contains_key(k) ==> fresh_block_data(*r, slot),
+        final(m)@ == old(m)@.insert(k, *final(r)),
+{ unimplemented!() }
+impl BlockData {
+/*@ extract src/consensus/blockstore/slot_block_data.rs :: impl BlockData/fn new
+props C14 C13
+ret r
+ensures
+        // [C14.fresh_block_data_is_empty_and_well_formed C13.fresh_block_data_is_empty_and_well_formed]
+        fresh_block_data(r, slot) && r.wf() && r.complete_inv(),
+@*/
+}
 impl SlotBlockData {
-    // SlotBlockData::add_shred_from_repair is PROVED in unit `repair` (a Block event only for the requested hash); here only its frame matters
-    #[verifier::external_body] /* proved-elsewhere */
-    pub fn add_shred_from_repair(&mut self, hash: BlockHash, shred: ValidatedShred, shredder: &mut RegularShredder) -> (r: Result<Option<BlockstoreEvent>, AddShredError>)
-        ensures
-            final(self).leader_misbehaved == old(self).leader_misbehaved && final(self).disseminated == old(self).disseminated,
-            r matches Ok(Some(BlockstoreEvent::Block { slot, block_info })) ==> block_info.hash == hash,
-            !(r matches Ok(Some(BlockstoreEvent::InvalidBlock(_)))),
-    { unimplemented!() }
+    // (the contract about WHICH hash a repaired block is announced and kept under is proved on the same body in unit `repair`;
+    //  here: the frame and the well-formedness of every block data kept for the slot)
+/*@ extract src/consensus/blockstore/slot_block_data.rs :: impl SlotBlockData/fn add_shred_from_repair
+props C14 C13
+ret r
+rewrite[R5] `self .repaired .entry(` => `verif_repaired_entry(&mut self.repaired, self.slot, `
+rewrite[R5] `) .or_insert_with(|| BlockData::new(self.slot))` => `)`
+requires
+        old(self).all_wf(),
+        shred.spec_payload().shred_index.0 < TOTAL_SHREDS && shred.spec_payload().header.slice_index.0 < 1024,
+ensures
+        final(self).leader_misbehaved == old(self).leader_misbehaved && final(self).disseminated == old(self).disseminated,
+        final(self).slot == old(self).slot,
+        r matches Ok(Some(BlockstoreEvent::Block { slot, block_info })) ==> block_info.hash == hash,
+        !(r matches Ok(Some(BlockstoreEvent::InvalidBlock(_)))),
+        // [C14.every_block_data_of_the_slot_stays_well_formed C13.every_block_data_of_the_slot_stays_well_formed]
+        final(self).all_wf(),
+        forall|h: BlockHash| h != hash ==> (#[trigger] final(self).repaired@.contains_key(h) <==> old(self).repaired@.contains_key(h))
+            && (final(self).repaired@.contains_key(h) ==> final(self).repaired@[h] == old(self).repaired@[h]),
+@*/
 }
 impl BlockstoreImpl {
 /*@ extract src/consensus/blockstore.rs :: impl Blockstore for BlockstoreImpl/fn add_shred_from_dissemination
@@ -682,10 +784,13 @@ elide-async
 rewrite[R8] `self .shredders .checkout() .expect("should have a shredder because of exclusive access")` => `self.shredders.verif_checkout()`
 rewrite[R8] `&mut shredder` => `shredder.verif_as_mut()`
 requires
+        old(self).store_wf(),
         old(self).flags_ok(),
         old(self).block_data@.contains_key(shred.spec_payload().header.slot) ==> old(self).block_data@[shred.spec_payload().header.slot].disseminated.wf(),
         shred.spec_payload().shred_index.0 < TOTAL_SHREDS && shred.spec_payload().header.slice_index.0 < 1024,
 ensures
+        // [C14.store_invariant_is_kept C13.store_invariant_is_kept] every block data in the store stays well formed (what the queries that serve repair rely on)
+        final(self).store_wf(),
         final(self).flags_ok(),
         // [C13.nothing_from_dissemination_after_misbehaviour] once the leader of the slot is flagged, nothing is accepted or announced
         old(self).flagged(shred.spec_payload().header.slot) ==> r is Err && final(self).votor_channel.sent() == old(self).votor_channel.sent(),
@@ -709,8 +814,12 @@ elide-async
 rewrite[R8] `self .shredders .checkout() .expect("should have a shredder because of exclusive access")` => `self.shredders.verif_checkout()`
 rewrite[R8] `&mut shredder` => `shredder.verif_as_mut()`
 requires
+        old(self).store_wf(),
+        shred.spec_payload().shred_index.0 < TOTAL_SHREDS && shred.spec_payload().header.slice_index.0 < 1024,
         old(self).flags_ok(),
 ensures
+        // [C14.store_invariant_is_kept C13.store_invariant_is_kept] every block data in the store stays well formed (what the queries that serve repair rely on)
+        final(self).store_wf(),
         final(self).flags_ok(),
         // [C14.repaired_block_reported_only_under_its_own_hash]
         r matches Ok(Some(info)) ==> info.hash == hash,
@@ -769,6 +878,7 @@ loop 0
             self.double_merkle_tree is Some,
             self.last_slice == Some(last_slice) && (self.double_merkle_tree->0).spec_leaves().len() == last_slice.0 + 1,
             block_hash == (self.double_merkle_tree->0).spec_root(),
+            forall|k: SliceIndex| k.0 <= last_slice.0 ==> #[trigger] row_full_in(self.shreds@, k),
         decreases verif_entries@.len() - verif_k,
 before `return ReconstructBlockResult::Error;#2`
         proof {
@@ -778,6 +888,15 @@ before `return ReconstructBlockResult::Error;#2`
             // `unreachable!` (finding F19: the preallocation limit capped the count at 1365)
             if wf_txs(slice.data@) && slice.data@.len() <= MAX_DATA_PER_SLICE { axiom_txs_min_size(slice.data@); }
             assert(!(wf_txs(slice.data@) && slice.data@.len() <= MAX_DATA_PER_SLICE));
+        }
+before `self.double_merkle_tree = Some(tree);`
+        proof {
+            // every slice up to the last one is reconstructed (l+1 of them, none above l), so each has all 64 shreds stored (W11): W12
+            assert forall|k: SliceIndex| k.0 <= last_slice.0 implies #[trigger] row_full_in(self.shreds@, k) by {
+                lemma_pigeon_at(self.slices@.dom(), last_slice.0 as int, k.0 as int);
+                assert(SliceIndex(k.0) == k);
+                assert(self.slices@.contains_key(k));
+            }
         }
 before `let slot = self.slot;`
         proof {
@@ -820,6 +939,11 @@ blockend `self.last_slice = Some(slice_index);`
                 assert(row_at(self.shreds@, k, i) == row_at(pre.shreds@, k, i));
             }
             if self.slices@.contains_key(SliceIndex(0)) { assert(pre.slices@.contains_key(SliceIndex(0))); }
+            assert forall|k: SliceIndex| #[trigger] self.slices@.contains_key(k) implies row_full_in(self.shreds@, k) by {
+                assert(pre.slices@.contains_key(k));
+                assert(self.shreds@.contains_key(k) && self.shreds@[k] == pre.shreds@[k]);
+                lemma_row_stays_full(pre.shreds@, self.shreds@, k);
+            }
         }
 @*/
 
@@ -830,7 +954,7 @@ ret r
 rewrite[R5] `let entry = match self.slices.entry(index) { Entry::Occupied(_) => return ReconstructSliceResult::NoAction, Entry::Vacant(entry) => entry, };` => `if self.slices.contains_key(&index) { return ReconstructSliceResult::NoAction; }`
 rewrite[R5] `entry.insert(reconstructed_slice);` => `self.slices.insert(index, reconstructed_slice);`
 rewrite[R8] `self .shreds .get_mut(&index) .expect("caller must insert at least one shred before reconstructing")` => `verif_shreds_get_mut(&mut self.shreds, &index)`
-rewrite[R10] `let reconstructed_slice = match shredder.deshred(slice_shreds) {` => `let verif_d = shredder.deshred(slice_shreds); let ghost row1 = *slice_shreds; proof { lemma_rows_after_deshred(pre, *self, index, row0, row1); } let reconstructed_slice = match verif_d {`
+rewrite[R10] `let reconstructed_slice = match shredder.deshred(slice_shreds) {` => `let verif_d = shredder.deshred(slice_shreds); let ghost row1 = *slice_shreds; proof { lemma_rows_after_deshred(pre, *self, index, row0, row1); assert forall|k: SliceIndex| #[trigger] pre.slices@.contains_key(k) implies row_full_in(self.shreds@, k) by { assert(row_full_in(pre.shreds@, k)); } assert forall|k: SliceIndex| pre.tree_leaves() is Some && k.0 <= (pre.last_slice->0).0 implies #[trigger] row_full_in(self.shreds@, k) by { assert(row_full_in(pre.shreds@, k)); } if verif_d is Ok { assert forall|i: int| 0 <= i < TOTAL_SHREDS implies (#[trigger] row_at(self.shreds@, index, i)) is Some by { assert(row1@[i] is Some); } assert(row_full_in(self.shreds@, index)); } } let reconstructed_slice = match verif_d {`
 requires
         old(self).wf(),
         old(self).shreds@.contains_key(index),
@@ -1033,6 +1157,15 @@ after `verif_row_set(slice_shreds, shred_index.inner(), Some(shred));`
                     }
                 } else { assert(row_at(c.shreds@, k, i) == row_at(b.shreds@, k, i)); }
             }
+            // full rows stay full (W11 / W12)
+            assert forall|k: SliceIndex| #[trigger] row_full_in(b.shreds@, k) implies row_full_in(c.shreds@, k) by {
+                assert forall|i: int| 0 <= i < TOTAL_SHREDS implies (#[trigger] row_at(c.shreds@, k, i)) is Some by {
+                    assert(row_at(b.shreds@, k, i) is Some);
+                    if k == slice_index { if i != shred_index.0 as int { assert(rowc@[i] == rowb@[i]); } }
+                }
+            }
+            assert forall|k: SliceIndex| #[trigger] c.slices@.contains_key(k) implies row_full_in(c.shreds@, k) by { assert(row_full_in(b.shreds@, k)); }
+            assert forall|k: SliceIndex| c.tree_leaves() is Some && k.0 <= (c.last_slice->0).0 implies #[trigger] row_full_in(c.shreds@, k) by { assert(row_full_in(b.shreds@, k)); }
             assert(c.wf());
             assert(row_at(c.shreds@, slice_index, shred_index.0 as int) == Some(shred));
         }
@@ -1157,6 +1290,21 @@ before `let block_info =`
                     assert(row_at(mid.shreds@, k, i) is Some);
                 }
             }
+            // the leader stores all 64 shreds of its own slice; other full rows are untouched (W11 / W12)
+            assert(row_full_in(self.shreds@, slice_index)) by {
+                assert forall|i: int| 0 <= i < TOTAL_SHREDS implies (#[trigger] row_at(self.shreds@, slice_index, i)) is Some by {
+                    assert(row_at(self.shreds@, slice_index, i) == Some(sh0@[i]));
+                }
+            }
+            assert forall|k: SliceIndex| k != slice_index && #[trigger] row_full_in(mid.shreds@, k) implies row_full_in(self.shreds@, k) by {
+                assert forall|i: int| 0 <= i < TOTAL_SHREDS implies (#[trigger] row_at(self.shreds@, k, i)) is Some by { assert(row_at(mid.shreds@, k, i) is Some); }
+            }
+            assert forall|k: SliceIndex| #[trigger] self.slices@.contains_key(k) implies row_full_in(self.shreds@, k) by {
+                if k != slice_index { assert(mid.slices@.contains_key(k)); assert(row_full_in(mid.shreds@, k)); }
+            }
+            assert forall|k: SliceIndex| self.tree_leaves() is Some && k.0 <= (self.last_slice->0).0 implies #[trigger] row_full_in(self.shreds@, k) by {
+                if k != slice_index { assert(row_full_in(mid.shreds@, k)); }
+            }
             assert(self.wf());
         }
 @*/
@@ -1202,6 +1350,8 @@ requires
             && shreds@[i].spec_payload().header.slice_index == shreds@[0].spec_payload().header.slice_index,
         shreds@[0].spec_payload().header.slice_index.0 == 0 ==> payload.parent is Some,
 ensures
+        // [C14.store_invariant_is_kept C13.store_invariant_is_kept]
+        old(self).store_wf() ==> final(self).store_wf(),
         // [C13.leader_path_emits_the_same_events] "Emits the same events as the dissemination path": FirstShred for the first
         // slice only, a Block event exactly when this slice completed the block, never an InvalidBlock
         final(self).flags_ok(),
